@@ -139,6 +139,8 @@ mod archetypes;
 mod doc;
 mod hlist;
 mod r#macro;
+#[cfg(brood_verif)]
+pub mod verif;
 
 #[doc(inline)]
 pub use query::Query;
